@@ -136,6 +136,20 @@ def check (n : Net) (lits : List Lit) (fuel : Nat) : Option (Bool × Net) :=
         | some (true, n) => if n.sat.decisionLevel ≤ dl then some (false, popTo n rl) else go n ps
   go n lits
 
+/-- `theory::backtrack_analyze_and_backjump()` for a conflict `cnfl` (every literal false) found outside propagation:
+    backtrack to the highest level of its literals; at root level add it as a clause and propagate, otherwise
+    analyse it, backjump, record the no-good and propagate -/
+def backtrackAnalyzeAndBackjump (n : Net) (cnfl : Clause) (fuel : Nat) : Option (Bool × Net) :=
+  let bt := cnfl.foldl (fun m l => max m (n.sat.level.getD l.var 0)) 0
+  let n := popTo n bt
+  if n.sat.rootLevel then
+    match n.sat.newClause cnfl with
+    | (false, s) => some (false, { n with sat := { s with dead := true } })
+    | (true, s) => propagate { n with sat := s } fuel
+  else match learnFrom n cnfl with
+    | none => none
+    | some n' => propagate n' fuel
+
 /-! ### theory-level requests (root level) -/
 
 def idlNewVar (n : Net) : Nat × Net := let (v, t) := Dl.newVar idlOps n.idl; (v, { n with idl := t })
